@@ -206,7 +206,7 @@ def main():
         "and by the unmodified pass-through of what it returns",
         "reference (a, A) from the declared prior with the capped K variance and jitter-inflated covariance; twins K1-K4 attribute the open kernel findings",
     ]
-    return chk.finish()
+    return chk.finish(run_case)
 
 
 def replay(doc):
